@@ -26,12 +26,28 @@ func init() {
 		sizeChecksMin, timeChecksMin := false, false
 		sizeGuard := false
 		decr, dryGuard, delIdx := false, false, false
+		readsJournalSize, loopsRereadChunkSize, totalIsSnapshotSum := false, false, false
 		exprStr := func(e ast.Expr) string { return c09NodeString(e) }
 		if fd == nil {
 			problem("partition.Service.truncate not found")
 		} else {
 			sawDecr, sawDry := false, false
 			ast.Inspect(fd.Body, func(n ast.Node) bool {
+				if ce, ok := n.(*ast.CallExpr); ok && exprStr(ce.Fun) == "jrnl.Size" {
+					readsJournalSize = true
+				}
+				if be, ok := n.(*ast.BinaryExpr); ok && be.Op == token.SUB && strings.Contains(exprStr(be.Y), "cks[idx].Size()") {
+					loopsRereadChunkSize = true
+				}
+				if as, ok := n.(*ast.AssignStmt); ok && len(as.Lhs) == 1 && len(as.Rhs) == 1 {
+					l, r := strings.ReplaceAll(exprStr(as.Lhs[0]), " ", ""), strings.ReplaceAll(exprStr(as.Rhs[0]), " ", "")
+					if as.Tok == token.ADD_ASSIGN && l == "size" && r == "sizes[i]" {
+						totalIsSnapshotSum = true
+					}
+					if as.Tok == token.SUB_ASSIGN && l == "size" && r != "sizes[idx]" {
+						loopsRereadChunkSize = true
+					}
+				}
 				switch s := n.(type) {
 				case *ast.ForStmt:
 					if s.Cond == nil {
@@ -47,7 +63,7 @@ func init() {
 							return true
 						}
 						l, r := exprStr(be.X), exprStr(be.Y)
-						if be.Op == token.GEQ && strings.Contains(r, "MinSrcSize") && strings.Contains(strings.ReplaceAll(l, " ", ""), "size-uint64(cks[idx].Size())") {
+						if be.Op == token.GEQ && strings.Contains(r, "MinSrcSize") && (strings.ReplaceAll(l, " ", "") == "size-sizes[idx]" || strings.Contains(strings.ReplaceAll(l, " ", ""), "size-uint64(cks[idx].Size())")) {
 							chkMin = true
 						}
 						if isTime && strings.Contains(l, "MaxTs") && strings.Contains(r, "OldestTs") {
@@ -99,6 +115,7 @@ func init() {
 		gmin, gmax := int64(-1), int64(-1)
 		gd := funcDecl(f, "Service", "truncateGlobally")
 		dryDelta := ""
+		dryDeltaSubtracts := false
 		if gd == nil {
 			problem("partition.Service.truncateGlobally not found")
 		} else {
@@ -149,11 +166,58 @@ func init() {
 				}
 				return true
 			})
+			ast.Inspect(gd.Body, func(n ast.Node) bool {
+				is, ok := n.(*ast.IfStmt)
+				if !ok || exprStr(is.Cond) != "tp.DryRun" {
+					return true
+				}
+				for _, st := range is.Body.List {
+					if as, ok := st.(*ast.AssignStmt); ok && as.Tok == token.SUB_ASSIGN && len(as.Lhs) == 1 &&
+						exprStr(as.Lhs[0]) == dryDelta && exprStr(as.Rhs[0]) == "ti.ChunksDeleted" {
+						dryDeltaSubtracts = true
+					}
+				}
+				return true
+			})
 			if gmin < 0 || gmax < 0 {
 				problem("partition.Service.truncateGlobally: inner truncate call with literal MinSrcSize/MaxSrcSize not found")
 				gmin, gmax = 0, 0
 			}
 		}
+		// the sorted insertion of Service.Truncate: predicate of sort.Search
+		tieBreak := ""
+		if td := funcDecl(f, "Service", "Truncate"); td == nil {
+			problem("partition.Service.Truncate not found")
+		} else {
+			ast.Inspect(td.Body, func(n ast.Node) bool {
+				ce, ok := n.(*ast.CallExpr)
+				if !ok || exprStr(ce.Fun) != "sort.Search" || len(ce.Args) != 2 {
+					return true
+				}
+				if fl, ok := ce.Args[1].(*ast.FuncLit); ok {
+					ast.Inspect(fl.Body, func(m ast.Node) bool {
+						if rs, ok := m.(*ast.ReturnStmt); ok && len(rs.Results) == 1 {
+							tieBreak = strings.Join(strings.Fields(exprStr(rs.Results[0])), " ")
+						}
+						return true
+					})
+				}
+				return false
+			})
+			if tieBreak == "" {
+				problem("partition.Service.Truncate: sort.Search predicate of the sorted insertion not found")
+			}
+		}
+		l.p("/-- `truncate` still calls `jrnl.Size()` for the total -/")
+		l.p("def truncateReadsJournalSize : Bool := %s", leanBool(readsJournalSize))
+		l.p("/-- the total is accumulated as `size += sizes[i]` over the snapshot of the chunk sizes -/")
+		l.p("def totalIsSnapshotSum : Bool := %s", leanBool(totalIsSnapshotSum))
+		l.p("/-- a loop of `truncate` reads `cks[idx].Size()` again (instead of `sizes[idx]`) -/")
+		l.p("def loopsRereadChunkSize : Bool := %s", leanBool(loopsRereadChunkSize))
+		l.p("/-- `if tp.DryRun { <delta> -= ti.ChunksDeleted }` precedes the accumulation in `truncateGlobally` -/")
+		l.p("def dryDeltaSubtractsPhase1 : Bool := %s", leanBool(dryDeltaSubtracts))
+		l.p("/-- the predicate of the sorted insertion by latest timestamp in `Service.Truncate` -/")
+		l.p("def insertPredicate : String := %s", leanStr(tieBreak))
 		l.p("/-- the time loop of `truncate` compares `sc[idx].MaxTs < tp.OldestTs` (true) or `<=` (false) -/")
 		l.p("def timeLoopStrict : Bool := %s", leanBool(strict))
 		l.p("/-- the size loop is entered only when `tp.MaxSrcSize > 0 && tp.MaxSrcSize > tp.MinSrcSize` -/")
